@@ -235,6 +235,9 @@ class Emitter:
             self.w(f"{s[1]} += {v}")
             if T:
                 self.rebinds([s[1]])
+        elif op == "augattr":
+            # o.n += e : not a binding of a name (no trace event), but an observable store
+            self.w(f"{s[1]}.{s[2]} += {self.e(s[3])}")
         elif op == "ann":
             x, ann, ex = s[1], s[2], s[3]
             if ex is None:
